@@ -95,6 +95,9 @@ def derive_cases(case, res):
             key = ("rollback", n)
         elif kind == "commit":
             key = ("commit", n)
+        elif kind == "execute" and head and head.startswith("PRAGMA READ_UNCOMMITTED ="):
+            # the statement that sets / resets the isolation level characteristic (also issued while the connection is checked in)
+            key = ("execute", n)
         else:
             continue
         if key not in seen:
@@ -358,6 +361,7 @@ def run_case(case):
             if not viol:
                 gc.collect()
                 state["tenant"] = len(case["tenants"])
+                plan.enabled = False          # faults have stopped: the engine must work
                 try:
                     c = eng.connect()
                     c.close()
